@@ -187,17 +187,36 @@ def gaps(surface, vol):
     return runs
 
 
+def _gap_list(lines, i):
+    """the hexadecimal gap sizes that follow a 'Gap sizes' heading, on however many lines the list is folded over
+    (no document fixes the folding): -> (sizes, lines consumed) or (None, 0)"""
+    gl = []
+    used = 0
+    while i + used < len(lines):
+        toks = lines[i + used].split()
+        if not toks:
+            if used == 0:
+                used = 1          # an empty list is printed as an empty line
+            break
+        if not all(re.match(rb'^[0-9A-Fa-f]+$', t) for t in toks):
+            break
+        gl += [int(t, 16) for t in toks]
+        used += 1
+    if used == 0:
+        return None, 0
+    return gl, used
+
+
 def parse_space(out):
     """-> (list of gap sizes, total) for a single-drive `space` output"""
     lines = out.split(b'\n')
     if len(lines) < 3 or not lines[0].startswith(b'Gap sizes on disc'):
         return None
-    try:
-        gl = [int(t, 16) for t in lines[1].split()]
-    except ValueError:
+    gl, used = _gap_list(lines, 1)
+    if gl is None:
         return None
     tot = None
-    for line in lines[2:]:
+    for line in lines[1 + used:]:
         m = re.match(rb'^Total space free = ([0-9A-Fa-f]+) sectors', line)
         if m:
             tot = int(m.group(1), 16)
@@ -364,13 +383,12 @@ def parse_space_multi(out):
         line = lines[i]
         m = re.match(rb'^Gap sizes on disc (\S+):$', line)
         if m:
-            try:
-                gl = [int(t, 16) for t in lines[i + 1].split()]
-            except (ValueError, IndexError):
+            gl, used = _gap_list(lines, i + 1)
+            if gl is None:
                 return None
             cur = [m.group(1).decode(), gl, None]
             blocks.append(cur)
-            i += 2
+            i += 1 + used
             continue
         m = re.match(rb'^Total space free = ([0-9A-Fa-f]+) sectors', line)
         if m and cur is not None:
